@@ -531,7 +531,7 @@ func Run(t *testing.T, cfg harness.Config, idx int, tp *tape.Tape) (res harness.
 		started := 0
 		var cur atomic.Pointer[taskCtx]
 		tasks := make([]*taskCtx, len(execs))
-		var sites []string           // distinct store sites in order of first execution (this session)
+		var sites []string            // distinct store sites in order of first execution (this session)
 		siteSeen := map[string]bool{} // (one task runs at a time: no lock needed)
 		var pair *pairReq
 		// nextSlice decides, in the goroutine that was just released, how far it runs now.
